@@ -322,6 +322,8 @@ def classify(o, spec, sr):
     o.cls("ts-change", len(sr.ref.timesigs) > 1)
     o.cls("key-signature", bool(ps.get("keysigs")))
     o.cls("key-signature-not-at-start", any(k[0] > 0 for k in ps.get("keysigs", [])))
+    _ks = sorted(ps.get("keysigs", []), key=lambda k: k[0])
+    o.cls("key-returns-to-an-earlier-key", any(_ks[j][1:] == _ks[i][1:] and any(_ks[m][1:] != _ks[i][1:] for m in range(i + 1, j)) for i in range(len(_ks)) for j in range(i + 2, len(_ks))))
     o.cls("grace", any(n["kind"] == "grace" for n in ps["notes"]))
     o.cls("tie-chain", any(n.get("tie_next") for n in ps["notes"]))
     o.cls("tie-over-barline", any(sr.bar_of(t) != sr.bar_of(t + dur - 1) for (t, dur, _, _, _) in sr.sounding if dur > 0))
@@ -948,7 +950,7 @@ SUBCHECKS = [
         budget={"quick": 120, "thorough": 1500},
         rule="generated single-part scores (pickups, bar-line signature changes, ties, grace notes, chords, 1-3 voices numbered with or without gaps / from 0 / with two digits, 1-3 staves, tuplets, articulations, alterations -2..2 and None) as Part / Score / list / PartGroup with a performed part (from dictionaries or from a note array, pedal dictionaries with or without track and channel) aligned note by note (match/deletion/insertion/ornament, pedals, arbitrary ppq/mpq) are saved with save_match (out a str, a Path or None) or matchfile_from_alignment (header texts, tempo indication, diff_score_version notes) and loaded with load_match(create_score=True); the loaded triple is saved and loaded again and must denote the same data; the file is loaded again with first_note_at_zero / pedal_threshold; non-trivial = (>=1 deletion and >=1 insertion) or a pickup or a beat unit other than the quarter",
         known=KNOWN,
-        floors={"has-ornament": 0.1, "pedal": 0.15, "pickup": 0.08, "non-quarter-beat": 0.15, "grace": 0.05, "tie-chain": 0.1, "assume-unfolded-false": 0.15,
+        floors={"key-returns-to-an-earlier-key": 0.03, "has-ornament": 0.1, "pedal": 0.15, "pickup": 0.08, "non-quarter-beat": 0.15, "grace": 0.05, "tie-chain": 0.1, "assume-unfolded-false": 0.15,
                 # generator audit
                 "loaded-triple-saved-again": 0.3, "loaded-again-with-options": 0.1, "voice-numbers-with-gaps": 0.1, "double-alteration": 0.2,
                 "natural-stated-as-none": 0.2, "staff-3": 0.03, "score-in-part-group": 0.05, "out:none": 0.05, "out:pathlib": 0.05,
